@@ -5,6 +5,7 @@ package liskbft
 import (
 	"github.com/LiskHQ/lisk-engine/pkg/blockchain"
 	"github.com/LiskHQ/lisk-engine/pkg/collection/bytes"
+	"github.com/LiskHQ/lisk-engine/pkg/consensus/validator"
 	"github.com/LiskHQ/lisk-engine/pkg/db/diffdb"
 )
 
@@ -320,3 +321,77 @@ func zzH_C02_branch_switch_deterministic(t *zzT) {
 	t.Assert(ok1 && ok2 && bytes.Equal(v1, v2), "stored vote state after a branch switch equals that of a node that only saw the final chain")
 	t.Reach("end")
 }
+
+// C03 "validatorsHash matching … the execution result" / C02 "validator-set and threshold changes": what
+// the application reports at the end of a block (weights, precommit threshold, certificate threshold) is what
+// the BFT module serves for the next height. After one processed block, SetBFTParameters with symbolic new
+// weights and thresholds (current: weights 1/1, precommit 2, certificate 2 or 1 — so that "new certificate
+// threshold = current precommit threshold" is among the cases): if accepted, the parameters of height+1
+// carry exactly the reported values and the validatorsHash of those values; the parameters of the current
+// height are untouched. (seed C03-6 compared the new certificate threshold with the current PRECOMMIT
+// threshold in the "nothing changed" shortcut.)
+//
+//zz:opt loop=24
+func zzH_C03_set_bft_parameters_effect(t *zzT) {
+	m := NewModule()
+	m.Init(4)
+	d := diffdb.New(&zzMemStore{}, []byte{})
+	g := &blockchain.BlockHeader{Version: 0, Height: 0, AggregateCommit: &blockchain.AggregateCommit{}, ID: []byte{0}}
+	if err := m.InitGenesisState(g.Readonly(), d); err != nil {
+		t.Fail("genesis state")
+	}
+	mkVals := func(w0, w1 uint64) BFTValidators {
+		return BFTValidators{{address: []byte{0xa0, 0}, bftWeight: w0, blsKey: []byte{1}}, {address: []byte{0xa0, 1}, bftWeight: w1, blsKey: []byte{2}}}
+	}
+	cert0 := uint64(t.Range("current.certificateThreshold", 1, 2))
+	if err := m.API().SetBFTParameters(d, 2, cert0, mkVals(1, 1)); err != nil {
+		t.Fail("genesis parameters")
+	}
+	hdr := &blockchain.BlockHeader{Version: 2, Height: 1, GeneratorAddress: []byte{0xa0, 0}, AggregateCommit: &blockchain.AggregateCommit{}, ID: []byte{1}}
+	if err := m.BeforeTransactionsExecute(hdr.Readonly(), d); err != nil {
+		t.Fail("block 1")
+	}
+	w0, w1 := uint64(t.U8("w0")), uint64(t.U8("w1"))
+	pre, cert := uint64(t.U16("pre")), uint64(t.U16("cert"))
+	err := m.API().SetBFTParameters(d, pre, cert, mkVals(w0, w1))
+	cur, e1 := m.API().GetBFTParameters(d, 1)
+	t.Assert(e1 == nil && cur.precommitThreshold == 2 && cur.certificateThreshold == cert0 && cur.validators[0].bftWeight == 1, "parameters of the current height are untouched")
+	if err != nil {
+		nxt, e2 := m.API().GetBFTParameters(d, 2)
+		t.Assert(e2 == nil && nxt.precommitThreshold == 2 && nxt.certificateThreshold == cert0, "refused parameters change nothing")
+		t.Reach("refused")
+		return
+	}
+	nxt, e2 := m.API().GetBFTParameters(d, 2)
+	t.Assert(e2 == nil, "parameters of the next height exist")
+	if e2 != nil {
+		return
+	}
+	t.Assert(nxt.precommitThreshold == pre && nxt.certificateThreshold == cert, "thresholds of the next height are the reported ones")
+	// (the module keeps the validators sorted by address, descending)
+	var got0, got1 uint64
+	for _, v := range nxt.validators {
+		if v.address[1] == 0 {
+			got0 = v.bftWeight
+		} else {
+			got1 = v.bftWeight
+		}
+	}
+	t.Assert(len(nxt.validators) == 2 && got0 == w0 && got1 == w1, "weights of the next height are the reported ones")
+	if w0 == 1 && w1 == 1 && pre == 2 && cert == cert0 {
+		// nothing changed: the parameters of height 1 stay in force (their hash was computed on concrete values)
+		t.Assert(bytes.Equal(nxt.validatorsHash, cur.validatorsHash), "unchanged parameters keep their validatorsHash")
+		t.Reach("unchanged")
+		return
+	}
+	hv := make(validator.HashValidators, 2)
+	for i, v := range mkVals(w0, w1) {
+		hv[i] = v
+	}
+	want, herr := validator.ComputeValidatorsHash(hv, cert)
+	t.Assert(herr == nil && bytes.Equal(nxt.validatorsHash, want), "validatorsHash of the next height commits to the reported keys, weights and certificate threshold")
+	t.Reach("accepted")
+}
+
+//zz:opt loop=24
+func zzH_C02_set_bft_parameters_effect(t *zzT) { zzH_C03_set_bft_parameters_effect(t) }
